@@ -21,11 +21,11 @@ check("C01", "fault_enumeration",
       "One pattern block (neighbouring 39-byte slices differ, all byte values) with the complement as client block plus the delimiter blocks - beyond those the transfer code only slices and joins; delays shorter than the gap between transfers; virtual time.",
       "exhaustive fate-vector enumeration + deviation-bounded fault injection on the real transfer code", "DESIGN.md §2 C01", "E1+E2+E3")
 check("C05", "model_checking",
-      "All histories (stateless, fresh really-connected client per history) up to depth 3/4 over a 13-event alphabet of partial updates (0-3 records, overlapping/repeated positions, 1-byte record, back-to-back messages), refreshes served by the real simulator a partial update landing mid-refresh, bursts of 30..600 pending updates, the same spa object connected twice, and histories that BEGIN with a partial update inside the handshake (after every client datagram x delays); async and threaded clients; lock-step with a sequentially updated reference block; exactly one protocol-range STATQ per STATP.",
+      "All histories (stateless, fresh really-connected client per history) up to depth 3/4 over a 13-event alphabet of partial updates (0-3 records, overlapping/repeated positions, 1-byte record, back-to-back messages), refreshes served by the real simulator a partial update landing mid-refresh, bursts of 30..600 pending updates, the same spa object connected twice, updates arriving while a request of the client's own is outstanding, and histories that BEGIN with a partial update inside the handshake (after every client datagram x delays); async and threaded clients; lock-step with a sequentially updated reference block; exactly one protocol-range STATQ per STATP.",
       "positions/values from a small set (handlers treat them opaquely); refresh window of the default snapshot's tables.",
       "exhaustive bounded-depth history enumeration against a reference model", "DESIGN.md §2 C05", "E1+E2")
 check("C06", "model_checking",
-      "Real protocol.get/lock/wait_for_response of a connected client: 1-3 concurrent callers (incl. the status-block request engine) x arrival offsets x retry counts, ALL reply-fate vectors {deliver,drop,late}, unsolicited noise near timeouts, reply latencies on a 50 ms grid inside the time-out, one caller cancelled by its client at every phase, timer-order (polling jitter) and timer-batch deviations with a third caller swept over three polling periods; oracle on datagrams + wait intervals (attempts<=R, fresh request per attempt, one in flight, FIFO service, result iff reply, completion bound). Gates: every gated API invoked on a tick grid around (and long after) the moment the spa stops answering pings, in the idle and in the active configuration, and on a spa whose connection attempt failed at each handshake step.",
+      "Real protocol.get/lock/wait_for_response of a connected client: 1-3 concurrent callers (incl. the status-block request engine) x arrival offsets x retry counts, ALL reply-fate vectors {deliver,drop,late}, unsolicited noise near timeouts, reply latencies on a 50 ms grid inside the time-out, one caller cancelled by its client at every phase, the endpoint closing under the callers, a stalled event loop, background requests that lose their reply on the full stack, timer-order (polling jitter) and timer-batch deviations with a third caller swept over three polling periods; oracle on datagrams + wait intervals (attempts<=R, fresh request per attempt, one in flight, FIFO service, result iff reply, completion bound). Gates: every gated API invoked on a tick grid around (and long after) the moment the spa stops answering pings, in the idle and in the active configuration, and on a spa whose connection attempt failed at each handshake step.",
       "wait intervals observed via a harness-installed wrapper of wait_for_response; virtual time; simulator as responder. The check-then-act gate defect is a recorded known finding.",
       "exhaustive fate-vector + bounded schedule-deviation exploration of the real request engine", "DESIGN.md §2 C06", "E1+E2+E3")
 check("C07", "model_checking",
@@ -42,20 +42,20 @@ check("C09", "fault_enumeration",
       "bound derived from the idle GeckoConfig; network healthy for ever after the script; two recorded known findings (ERROR_SPA_NOT_FOUND terminal, reset in the last steps of a connection attempt).",
       "exhaustive crash-point injection + enumerated fault scripts on the real stack (bounded liveness)", "DESIGN.md §2 C09", "E1+E2+E3")
 check("C10", "fault_enumeration",
-      "Whole async stack: async_reset and context exit injected at every loop step through discovery/handshake/early steady state and a stride through the periodic tail, blackout and error states (+ first steps of every state, RF-error/slow-client, yielding-client, failed-send and corrupted-config-file baselines, the library's own ping-triggered resets, partial updates inside the teardown window, a per-connection cap on live SPA tasks/endpoints after every reset, timer deviations before the injection, reconnect cycles); every endpoint/task existing at the injection must be closed/done promptly, late datagrams to old endpoints must not reach client observers, resources must not grow over cycles.",
+      "Whole async stack: async_reset and context exit injected at every loop step through discovery/handshake/early steady state and a stride through the periodic tail, blackout and error states (+ first steps of every state, RF-error/slow-client, yielding-client, failed-send and corrupted-config-file baselines, the library's own ping-triggered resets, partial updates inside the teardown window, a per-connection cap on live SPA tasks/endpoints after every reset, the configuration table re-installed at every step of the handshake, timer deviations before the injection, reconnect cycles); every endpoint/task existing at the injection must be closed/done promptly, late datagrams to old endpoints must not reach client observers, resources must not grow over cycles.",
       "endpoints = VTransports handed out by the harness loop; 'promptly' = 5 virtual s (12 s for a discovery legitimately in progress); known finding: context exit leaves the spa endpoint open.",
       "exhaustive crash-point injection with resource accounting on the real stack", "DESIGN.md §2 C10", "E1+E2+E3")
 check("C15", "model_checking",
-      "Real GeckoAsyncLocator.discover against scripted responders: all spa sets of size 0..3 from a pool with '|', latin-1 and empty names x per-spa latency from a 6-value grid around the initial wait and the timeout x reply multiplicity (1, 2, 8, 12) x loss of the first 1..2 replies of one spa x 6 filter modes (incl. a sub-net address), awaiting client handlers, a loaded host (late wake-ups), plus timer-order/batch deviations <=2; oracle on the listed descriptors, the return time, endpoint closure and helper tasks.",
+      "Real GeckoAsyncLocator.discover against scripted responders: all spa sets of size 0..3 (and neighbourhoods of 12..25 spas) from a pool with '|', latin-1 and empty names x per-spa latency from a 6-value grid around the initial wait and the timeout x reply multiplicity (1, 2, 8, 12) x loss of the first 1..2 replies of one spa x 6 filter modes (incl. a sub-net address), awaiting client handlers, a loaded host (late wake-ups), plus timer-order/batch deviations <=2; oracle on the listed descriptors, the return time, endpoint closure and helper tasks.",
       "responders answer every broadcast they hear; replies built by a reference encoder; a spa that lost only its first reply must be listed by a run that lasts the initial wait.",
       "exhaustive scenario enumeration + bounded schedule deviations on the real locator", "DESIGN.md §2 C15", "E1+E2+E3")
 check("C17", "model_checking",
-      "Real config_sleep/set_config_mode on the virtual loop: all switch sequences up to length 4 (table completeness), up to 3 sleepers x delays x starts x up to 2 switches on a common time grid, looping sleepers, with EVERY order of simultaneous timers and (deviation-bounded) asyncio's batching of simultaneous timers; real connected facades of 5 snapshot configurations through every on/off combination of pumps and blowers.",
+      "Real config_sleep/set_config_mode on the virtual loop: all switch sequences up to length 4 from the pristine and from a poisoned root (table completeness), up to 3 sleepers x delays x starts x up to 2 switches on a common time grid, looping sleepers, with EVERY order of simultaneous timers and (deviation-bounded) asyncio's batching of simultaneous timers; real connected facades of 5 snapshot configurations through every on/off combination of pumps and blowers.",
       "a switch before any sleeper ever ran trips the library's own assert and is excluded; early wake-ups are not excluded by the statement and not reported.",
       "exhaustive enumeration of sleeper/switch plans with all tie orders (unbounded deviations)", "DESIGN.md §2 C17", "E1+E3")
 
 check("C02", "exploration",
-      "Real accessors of every shipped table on real structure objects: per geometric shape ALL prior field contents x ALL domain values (bit-fields), ALL domain values x prior patterns (bytes, words, HH:MM, every raw temperature word in both units) at the shipped position, both block edges and the middle; every one of the ~20,500 items on three backgrounds; both write paths; every device write followed onto the wire (the clients' SPACK constructor decoded by the reference layout); reference bit-field codec built from the raw declarations.",
+      "Real accessors of every shipped table on real structure objects: per geometric shape ALL prior field contents x ALL domain values (bit-fields), ALL domain values x prior patterns (bytes, words, HH:MM, every raw temperature word in both units) at the shipped position, both block edges and the middle; every one of the ~20,500 items on three backgrounds; both write paths; every device write followed onto the wire (the clients' SPACK constructor decoded by the reference layout); blocking writes on a really connected async spa; reference bit-field codec built from the raw declarations.",
       "background outside the field: seed-chosen pattern; shapes that exist only read-only are tested for refusal only.",
       "exhaustive input enumeration per shape + per-item binding sweep against a reference codec", "DESIGN.md §2 C02", "E6")
 check("C03", "model_checking",
